@@ -431,6 +431,9 @@ def run(ctx, facts):
     # 1 SEED
     n = check_seeds(ctx, facts, "SEED", SEED_TABLE)
     ctx.floor("C02 SEED sites", n, 6)
+    from . import C18
+    ctx.rule("SHASEED", C18.RULES["SHASEED"])
+    C18.sha_rule(ctx, facts)
     # 2 RNGPROTO
     nev = 0
     for fid in PROTO_FNS:
